@@ -120,6 +120,10 @@ struct Collector {
     stall_first: std::sync::atomic::AtomicBool,
     /// signals one of whose connections went dark (a failure the request log does not show)
     wedged: Mutex<BTreeSet<Signal>>,
+    /// long-outage mode: this signal's collector rejects its next `n` requests, however many that is - more than one
+    /// batch's retry budget (1 + 10 attempts). It is the only thing that ever fails for that signal, and every such
+    /// failure is a complete, logged request, so that the oracle can count the attempts each batch was given.
+    outage: Mutex<Option<(Signal, u32)>>,
 }
 
 impl Collector {
@@ -127,6 +131,9 @@ impl Collector {
     /// dark under the client) in a row for this signal: every fault source asks before it strikes, so that a batch
     /// is never failed more often than its retry budget allows - a batch that IS given up is then the client's doing.
     fn may_fail(&self, signal: Signal) -> bool {
+        if matches!(*self.outage.lock().unwrap(), Some((s, _)) if s == signal) {
+            return false;
+        }
         *self.consecutive_failures.lock().unwrap().entry(signal).or_insert(0) < 6
     }
 
@@ -143,6 +150,17 @@ impl Collector {
         if self.stall_first.swap(false, Ordering::SeqCst) {
             *self.fired.lock().unwrap().entry("stall_until_client_timeout").or_insert(0) += 1;
             return Decision::Stall;
+        }
+        if let Some((s, n)) = self.outage.lock().unwrap().as_mut() {
+            if *s == signal {
+                if *n == 0 {
+                    return Decision::Ack;
+                }
+                *n -= 1;
+                *self.fired.lock().unwrap().entry("long_outage_rejection").or_insert(0) += 1;
+                let st = *self.sched.lock().choices.pick(&[503u32, 500, 429, 503]);
+                return Decision::Status(st);
+            }
         }
         let mut left = self.faults_left.lock().unwrap();
         let mut cons = self.consecutive_failures.lock().unwrap();
@@ -897,7 +915,7 @@ impl Engine for OtlpSim {
         if self.focus == "C14" {
             "one run = one subset of the three signals (all eight occur) x transport per signal x a generated event stream over kind {none, span, metric, unknown} x extent {none, point, range, empty range, backwards range} x metric value {number, numeric sequence, text, missing}, fault-free or with collector faults / a dead host; the event-shape dimension is ordinary seeded generation, simulation contributes the observation point (collector endpoints after worker, transport and retries) and the outage configurations; non-trivial = at least two signals configured or a fault fired; distinct = distinct history hash"
         } else {
-            "one run = 1-40 events (a fraction with 100-300 KiB payloads so one batch spans several requests) through 1-3 signals over HTTP/JSON, HTTP/protobuf or gRPC with gzip on/off, against a collector that per request acknowledges, rejects (4xx/5xx, grpc-status), closes before or after reading, resets mid-body, stalls until the 30 s client timeout, answers slowly, refuses connections, or is down forever for one signal; non-trivial = a fault fired, a batch was split into several requests, or more than one signal carried events; distinct = distinct history hash"
+            "one run = 1-40 events (a fraction with 100-300 KiB payloads so one batch spans several requests) through 1-3 signals over HTTP/JSON, HTTP/protobuf or gRPC with gzip on/off, against a collector that per request acknowledges, rejects (4xx/5xx, grpc-status), closes before or after reading, resets mid-body, stalls until the 30 s client timeout, answers slowly, refuses connections, is down forever for one signal, or (one run in eight) rejects 11-23 requests of one signal in a row so that batches run out of retries; non-trivial = a fault fired, a batch was split into several requests, or more than one signal carried events; distinct = distinct history hash"
         }
     }
 
@@ -948,6 +966,16 @@ impl Engine for OtlpSim {
         };
         // (routing runs too: a batch that is split into several requests must still export every event exactly once)
         let big = !overflow && if c14 { ch.chance(1, 8) } else { ch.chance(1, 4) };
+        // long-outage mode: one signal's collector rejects more requests in a row than one batch's retry budget
+        // (1 + 10 attempts) covers - 11 exactly, one or two more (the next batch meets the tail of the outage), or two
+        // budgets' worth. What is given up after its 11 attempts is legitimately lost; nothing else is.
+        let long_outage: Option<(Signal, u32)> = if !c14 && !overflow && !big && ch.chance(1, 8) {
+            let live: Vec<Signal> = signals.iter().copied().filter(|s| dead_host != Some(*s)).collect();
+            let s = live[ch.choose(live.len() as u32) as usize];
+            Some((s, *ch.pick(&[11u32, 12, 13, 12, 22, 23])))
+        } else {
+            None
+        };
         let n_events = if overflow {
             10_002 + ch.choose(40)
         } else if big {
@@ -987,7 +1015,7 @@ impl Engine for OtlpSim {
             } else {
                 MVal::Number
             };
-            let medium = !c14 && !big && ch.chance(1, 10);
+            let medium = !c14 && !big && ch.chance(1, 10) && long_outage.is_none();
             let payload = if big && c14 {
                 // large enough that three events pending for one signal are split over two requests
                 400_000 + ch.choose(200_000) as usize
@@ -1037,7 +1065,8 @@ impl Engine for OtlpSim {
         }
         for i in 0..if overflow { 0 } else { n_events } {
             steps.push(Step::Emit(i));
-            match ch.weighted(&[12, 2, 2]) {
+            // (during a long outage the client keeps emitting: later events form the batches behind the one given up)
+            match ch.weighted(if long_outage.is_some() { &[6, 6, 2] } else { &[12, 2, 2] }) {
                 0 => {}
                 1 => steps.push(Step::Sleep(*ch.pick(&[1u64, 40, 800, 5000]))),
                 _ => steps.push(Step::Flush(*ch.pick(&[0u64, 50, 2000, 120_000]))),
@@ -1050,7 +1079,7 @@ impl Engine for OtlpSim {
         // the gRPC base URL written with a trailing slash
         let grpc_trailing_slash = ch.chance(1, 3);
         // rarely: one event that alone exceeds the 1 MiB request limit
-        if !c14 && ch.chance(1, 150) && !events.is_empty() {
+        if !c14 && ch.chance(1, 150) && !events.is_empty() && long_outage.is_none() {
             let k = ch.choose(events.len() as u32) as usize;
             events[k].payload = 1_100_000 + ch.choose(100_000) as usize;
             events[k].noisy = false;
@@ -1077,6 +1106,7 @@ impl Engine for OtlpSim {
             max_chunk,
             stall_first: std::sync::atomic::AtomicBool::new(overflow),
             wedged: Mutex::new(BTreeSet::new()),
+            outage: Mutex::new(long_outage),
         });
         {
             let col2 = col.clone();
@@ -1086,7 +1116,7 @@ impl Engine for OtlpSim {
         }
         let prev = simthread::enter(&sched);
         sched.log(format!(
-            "config: signals={signals:?} hosts={:?} dead_host={dead_host:?} fault_budget={fault_budget} events={n_events} big={big} overflow={overflow} final_flush={final_flush} max_chunk={max_chunk}",
+            "config: signals={signals:?} hosts={:?} dead_host={dead_host:?} fault_budget={fault_budget} events={n_events} big={big} overflow={overflow} long_outage={long_outage:?} final_flush={final_flush} max_chunk={max_chunk}",
             hosts.iter().map(|h| format!("{:?}/{:?}/gzip={}", h.signal, h.transport, h.gzip)).collect::<Vec<_>>()
         ));
 
@@ -1143,6 +1173,7 @@ impl Engine for OtlpSim {
             let sc = sched.clone();
             let clog = clog.clone();
             let events = events.clone();
+            let want_trace = ctx.want_trace;
             sched
                 .spawn(
                     "client".into(),
@@ -1214,6 +1245,18 @@ impl Engine for OtlpSim {
                             }));
                             clog.lock().unwrap().discarded = *found.lock().unwrap();
                         }
+                        if want_trace {
+                            // the emitter's own account of what happened (for whoever reads the trace; nothing is judged on it)
+                            use emit::metric::Source as _;
+                            let all: Mutex<Vec<String>> = Mutex::new(Vec::new());
+                            otlp.metric_source().sample_metrics(emit::metric::sampler::from_fn(|m| {
+                                let v = m.value().to_string();
+                                if v != "0" {
+                                    all.lock().unwrap().push(format!("{}={v}", m.name()));
+                                }
+                            }));
+                            sc.log(format!("emitter metrics: {}", all.lock().unwrap().join(" ")));
+                        }
                         clog.lock().unwrap().dropped_at = Some(sc.now());
                         sc.log("dropping the Otlp emitter".into());
                         drop(otlp);
@@ -1284,6 +1327,60 @@ impl Engine for OtlpSim {
                     seen_in.entry(m.as_str()).or_default().push(r);
                     if r.acked {
                         acked_in.entry(m.as_str()).or_default().push(r);
+                    }
+                }
+            }
+            // Long-outage mode: a batch is one request here (small events only), every failure of the outage signal
+            // is a complete logged request, so the attempts a batch was given can be counted: the requests that
+            // carried exactly its events. 1 + 10 failed attempts and the client may give the batch up - not before.
+            const ATTEMPTS: usize = 11;
+            let failed_attempts_by = |markers: &Vec<String>, until: Duration| -> usize {
+                log.iter().filter(|r| !r.acked && r.body_complete && &r.markers == markers && r.at <= until).count()
+            };
+            // Attempts the collector cannot see: the client drops an error response without reading its body, and
+            // when that body had not fully arrived the HTTP/1 connection is closed under it - the client learns of it
+            // at its next attempt, which fails without any I/O and is followed by a reconnect. At most one such
+            // attempt per connection, so the count of logged attempts is short by at most the number of connections.
+            let unseen_attempts_max: usize = long_outage
+                .map(|(s, _)| log.iter().filter(|r| r.signal == s).map(|r| r.conn).collect::<BTreeSet<_>>().len())
+                .unwrap_or(0);
+            let enough = ATTEMPTS.saturating_sub(unseen_attempts_max).max(2);
+            // events of a batch that ran out of attempts (by the given time): legitimately lost
+            let given_up_by = |marker: &str, until: Duration| -> bool {
+                long_outage.is_some()
+                    && log
+                        .iter()
+                        .filter(|r| !r.acked && r.body_complete && r.markers.iter().any(|m| m == marker))
+                        .any(|r| failed_attempts_by(&r.markers, until) >= enough)
+            };
+            if long_outage.is_some() {
+                out.probe("long_outage_mode");
+                let mut batches: BTreeSet<&Vec<String>> = BTreeSet::new();
+                for r in log.iter().filter(|r| !r.acked && r.body_complete) {
+                    batches.insert(&r.markers);
+                }
+                let given_up = batches.iter().filter(|b| failed_attempts_by(b, Duration::MAX) >= enough).count();
+                if given_up >= 1 {
+                    out.probe("batch_given_up_after_eleven_attempts");
+                }
+                if given_up >= 2 {
+                    out.probe("two_batches_given_up");
+                }
+                if batches.iter().any(|b| {
+                    let n = failed_attempts_by(b, Duration::MAX);
+                    n >= 1 && n < enough
+                }) && given_up >= 1
+                {
+                    out.probe("batch_behind_a_given_up_one_failed_and_was_retried");
+                }
+                for b in &batches {
+                    let n = failed_attempts_by(b, Duration::MAX);
+                    if n > ATTEMPTS {
+                        out.violate(
+                            "C12",
+                            "retried_beyond_budget",
+                            format!("the batch {b:?} was sent {n} times to a collector that rejected it every time; the retry budget is 10 retries"),
+                        );
                     }
                 }
             }
@@ -1379,7 +1476,9 @@ impl Engine for OtlpSim {
                 }
                 let acks = acked_in.get(ev.marker.as_str()).map(|v| v.len()).unwrap_or(0);
                 let seen = seen_in.get(ev.marker.as_str()).map(|v| v.len()).unwrap_or(0);
-                if settled && acks == 0 {
+                if settled && acks == 0 && given_up_by(ev.marker.as_str(), Duration::MAX) {
+                    out.probe("event_lost_with_its_given_up_batch");
+                } else if settled && acks == 0 {
                     let (rule, how) = if last_flush_ok {
                         ("flushed_but_not_acknowledged", "the final flush returned true")
                     } else {
@@ -1433,8 +1532,10 @@ impl Engine for OtlpSim {
                         .get(ev.marker.as_str())
                         .map(|v| v.iter().any(|r| r.done_at.map(|d| d <= *t1).unwrap_or(false)))
                         .unwrap_or(false);
-                    // given up: the signal saw 10+ consecutive failures (never scripted) - so acknowledged it must be
-                    if !acked_by_then {
+                    // given up: only in long-outage mode, after 11 failed attempts - otherwise acknowledged it must be
+                    if !acked_by_then && given_up_by(ev.marker.as_str(), *t1) {
+                        out.probe("flush_true_after_batch_given_up");
+                    } else if !acked_by_then {
                         let d = format!(
                             "blocking_flush({ms}ms) returned true at {t1:?} but event {} ({sig:?}) had not been acknowledged by then",
                             ev.marker
@@ -1450,6 +1551,11 @@ impl Engine for OtlpSim {
                 for pair in reqs.windows(2) {
                     let (a, b) = (pair[0], pair[1]);
                     if a.acked {
+                        continue;
+                    }
+                    if long_outage.is_some() && a.body_complete && b.body_complete && a.markers != b.markers && failed_attempts_by(&a.markers, a.at) >= enough {
+                        // `a` was the last attempt of a batch that is now given up: `b` is the next batch, not a retry
+                        out.probe("next_batch_follows_a_given_up_one");
                         continue;
                     }
                     out.probe("request_retried_after_failure");
